@@ -7,7 +7,9 @@
 (*    received the call,"recv":[Go values],"printed":text,"own":bool,          *)
 (*    "cf":the CONVFMT in force,"awk":[the text (arg "") of every argument as  *)
 (*    the program itself printed it],"shadow":name of the Funcs entry that an  *)
-(*    AWK function of the program shadows, or "none"}                          *)
+(*    AWK function of the program shadows, or "none","xnum":{"ok","neg",       *)
+(*    "e10","digits"}: an extreme result (res "ext") as the program printed it *)
+(*    with %.0f and %e -- sign, decimal exponent, integer digits}              *)
 (* The same operators as MC_Native / Gen_Native decide (Native!OutcomeConv);  *)
 (* the table of a recorded run has other names than the model's, so of the    *)
 (* dispatch only "the function named in the program received the call, and it *)
@@ -29,6 +31,11 @@ Explains(ev) ==
      /\ \A j \in 1..Len(ex.recv) : ex.recv[j].ok => ev.recv[j] = Meant(ex.recv[j], ev, j)
      /\ (ex.o = "ok" /\ ex.printed.ok) => ev.printed = (IF "awk" \in DOMAIN ex.printed THEN ev.awk[1] ELSE ex.printed.val)
      /\ ex.o = "abort" => ev.own                     \* Execute returned exactly the function's error
+     \* an extreme result: the AWK number has the sign and the order of magnitude of the value the function returned,
+     \* and every digit of it where a float64 holds that value exactly
+     /\ (ex.o = "ok" /\ "num" \in DOMAIN ex) =>
+          /\ ev.xnum.ok /\ ev.xnum.neg = ex.num.neg /\ ev.xnum.e10 = ex.num.e10
+          /\ ((ex.num.int /\ ex.num.exact) => ev.xnum.digits = ex.num.digits)
 
 Show(ex) == IF ex.o \in {"ok", "abort"} THEN ex ELSE [o |-> ex.o]
 
